@@ -301,16 +301,25 @@ def check_ts(run, t, label):
                 break
 
 
+def rng_breaks(run):
+    return run.rng.randint(8, 30)
+
+
 def main():
     run = O.Run("c01_trees")
     if run.replay is not None:
         # re-run the stored case: the generator is deterministic in (seed, case number)
         pass
     N = run.budget(800, 6000)
-    run.scope = ("%d seeded valid table collections (<=4 samples, <=4 internal nodes, <=3 breakpoints, gaps, unary, "
-                 "polytomies, internal samples) x tree options x navigation histories of length <= 7" % N)
+    run.scope = ("%d seeded valid table collections (<=4 samples, <=4 internal nodes, <=3 breakpoints, every fifth with <=2 samples "
+                 "and 8-30 breakpoints; gaps, unary, polytomies, internal samples) x tree options x navigation histories of length <= 7" % N)
     for k in range(N):
-        t = O.random_tables(run.rng, sites=True, integer_coords=(k % 3 != 0), odd_flags=(k % 2 == 0))
+        if k % 5 == 4:
+            # many small trees over few edges: long seeks in either direction cross more trees than there are edges
+            t = O.random_tables(run.rng, sites=True, integer_coords=True, odd_flags=False, max_samples=2, max_internal=3,
+                                max_breaks=rng_breaks(run), L=40.0)
+        else:
+            t = O.random_tables(run.rng, sites=True, integer_coords=(k % 3 != 0), odd_flags=(k % 2 == 0))
         label = "seed=%d case=%d" % (run.seed, k)
         run.case(("ts", k))
         try:
@@ -325,4 +334,4 @@ def main():
 
 
 if __name__ == "__main__":
-    main()
+    O.run_main(main)
